@@ -132,14 +132,18 @@ PROPS["C12"] = {
         {"dir": "mempool/v1",
          "quick": ["VP_C12_V1_k3", "VP_C12_V1_k3_smallcache", "VP_C12_V1_k2_reap"],
          "thorough": ["VP_C12_V1_k4", "VP_C12_V1_k4_smallcache", "VP_C12_V1_k3_reap"]},
+        {"dir": "state",
+         "quick": ["VP_C05_Quiesce_0", "VP_C05_Quiesce_1_concurrent"],
+         "thorough": []},
     ],
     "bounds": {
         "histories": "real CListMempool (v0) and TxMempool (v1); k = 3 (thorough 4) operations from {CheckTx of one of 2 (one configuration 3) transactions, delivery of one pending response (v0 async connection), block commit with a symbolic subset of the transactions, symbolic DeliverTx codes, then recheck}; the application's verdict per transaction is a symbolic code that changes at every block; v1 priorities 0/1",
         "configuration": "Size 1..2, CacheSize 1..2 (including cache smaller than pool), MaxTxsBytes symbolic in [3,6], MaxTxBytes 3, KeepInvalidTxsInCache symbolic, Recheck on/off",
+        "update lock": "the commit-time discipline the cache/pool consistency relies on (C05's quiescence entries): real BlockExecutor.Commit with the v0 mempool on a queued connection and one concurrent CheckTx with up to 3 preemptions",
         "reaping": "pool of 2..3 admitted transactions, ReapMaxTxs(max) for max in [-1,3], ReapMaxBytesMaxGas with symbolic limits in [-1,16]: prefix of the order, within the limits, maximal",
     },
     "stubs": ["mempool ABCI connection = harness object answering in request order (sync like the local client, or queued like the socket client)", "sha256 concrete (transaction keys)"],
-    "outside": ["concurrent submissions from several goroutines (the update lock protocol is C05-H3)", "gossip", "more than 3 transactions / 4 operations", "TTL-based expiry in v1"],
+    "outside": ["concurrent submissions from several goroutines beyond the one racing CheckTx of the update-lock entries", "gossip", "more than 3 transactions / 4 operations", "TTL-based expiry in v1"],
     "timeout_quick": 600, "timeout_thorough": 3000,
 }
 
